@@ -216,11 +216,12 @@ def legacy_spec_truth(rule, txn):
 
 # ------------------------------------------------------------------ implementation-only oracles
 
-def spec_resolve_tags(eng, rule, t, variables, data_sources=None):
-    """C02's wording, written independently of _resolve_tags."""
+def spec_resolve_tags(eng, rule, t, variables, data_sources=None, written=None):
+    """C02's wording, written independently of _resolve_tags. `written` = the tags as the FILE states them (the loader's
+    own copy, rule.tags, is used only when the caller has nothing else)."""
     from tally import expr_parser as EP
     out = set()
-    for tag in rule.tags:
+    for tag in (rule.tags if written is None else written):
         tag = tag.strip()
         if not tag:
             continue
@@ -312,10 +313,11 @@ def oracle_c02(f, txn, r):
         eng = ME.parse_merchants(text, mode)
         gv = eng._evaluate_variables(copy.deepcopy(t))
         want = set()
-        for rule in eng.rules:
+        aligned = len(eng.rules) == len(f['rules']) and all(x.name == y['name'] for x, y in zip(eng.rules, f['rules']))
+        for k, rule in enumerate(eng.rules):
             tr, variables = rule_truth(eng, rule, t, gv)
             if tr:
-                want |= spec_resolve_tags(eng, rule, t, variables)
+                want |= spec_resolve_tags(eng, rule, t, variables, written=f['rules'][k].get('tags', []) if aligned else None)
         res = eng.match(copy.deepcopy(t))
         results[mode] = res
         if set(res.tags) != want:
@@ -644,7 +646,7 @@ def run(ctx, prop):
                     corpus_fail.append(pf)
         for i in range(n):
             txn = G.gen_txn(r)
-            f = G.gen_rules_file(r, txn, force_ties=(prop == 'C09' and i % 2 == 0), dup_names=(i % 3 == 0))
+            f = G.gen_rules_file(r, txn, force_ties=(prop == 'C09' and i % 2 == 0), dup_names=(i % 3 == 0), let_twins=(i % 4 == 1), long_patterns=(prop == 'C09' and i % 4 == 2))
             f['transforms'] = f['transforms'] if prop == 'C01' else []
             mode = 'most_specific' if prop == 'C09' else ('first_match' if prop == 'C01' else r.choice(['first_match', 'most_specific']))
             items.append((f, txn, mode))
@@ -821,7 +823,7 @@ def run(ctx, prop):
         out = []
         for i in range(4000):
             txn = G.gen_txn(r)
-            f = G.gen_rules_file(r, txn, n=r.choice([2, 3, 4]), force_ties=(prop == 'C09'), dup_names=(i % 2 == 0))
+            f = G.gen_rules_file(r, txn, n=r.choice([2, 3, 4]), force_ties=(prop == "C09"), dup_names=(i % 2 == 0), let_twins=(i % 3 == 0), long_patterns=(prop == "C09" and i % 3 == 1))
             f['transforms'] = []
             try:
                 for pf in oracle(f, txn_for_engine(txn), r):
